@@ -230,11 +230,11 @@ impl ServiceInfo {
     #[verifier::external_body]
     pub fn get_type(&self) -> (r: &str) ensures r@ == self.ty() { unimplemented!() }
     #[verifier::external_body]
-    pub fn is_addr_auto(&self) -> (r: bool) { unimplemented!() }
+    pub fn is_addr_auto(&self) -> (r: bool) ensures r == self.auto_spec() { unimplemented!() }
     // adds the interface's address to the service's address set; the name is untouched
     #[verifier::external_body]
     pub fn insert_ipaddr(&mut self, intf: &Interface)
-        ensures final(self).fullname() == old(self).fullname(),
+        ensures final(self).fullname() == old(self).fullname(), final(self).auto_spec() == old(self).auto_spec(), final(self).statuses() == old(self).statuses(),
     { unimplemented!() }
 }
 
@@ -276,3 +276,22 @@ pub open spec fn cover_rs_gt(rs: Seq<ReRun>, timers: Multiset<u64>, t0: int) -> 
 pub open spec fn cover_rs_kept(a: Zeroconf, rs: Seq<ReRun>, timers: Multiset<u64>) -> bool {
     forall|t0: int| #[trigger] cover_gt(a, t0) ==> cover_rs_gt(rs, timers, t0)
 }
+
+// ---- add_interface (unit schedule) ----
+// The `match self.my_intfs.entry(if_index) { Occupied .. Vacant .. }` block (std Entry API, joins the multicast group):
+// None: the interface was unknown and joining failed, nothing changed; Some(b): the interface is known now, b says
+// whether the address is new to it
+#[verifier::external_body]
+pub fn vx_add_intf_addr(m: &mut HashMap<u32, MyIntf>, intf: &Interface, if_index: u32) -> (r: Option<bool>)
+    ensures r is None ==> *final(m) == *old(m), r is Some ==> final(m)@.contains_key(if_index),
+{ unimplemented!() }
+impl Zeroconf {
+    // builds and multicasts one question on one interface (the browse that registered the type already sent it once)
+    #[verifier::external_body]
+    pub fn send_query_on_intf(&self, name: &str, qtype: RRType, intf: &MyIntf) { unimplemented!() }
+}
+// the service was announced in this call: a log entry at or after position l0 for it that went out
+pub open spec fn announced_since(s: ServiceInfo, log: Seq<(int, MyIntf, bool)>, l0: int) -> bool {
+    exists|k: int| l0 <= k < log.len() && (#[trigger] log[k]).0 == s.ident() && log[k].2
+}
+pub open spec fn idx_of(intf: Interface) -> u32 { match intf.index { Some(i) => i, None => 0u32 } }
